@@ -339,12 +339,25 @@ def b_or(xs):
     return out[0] if len(out) == 1 else B("or", out)
 
 
+def _eq_sign(d: Lin) -> Lin:
+    """eq(l) and eq(-l) are the same fact: fix the sign by the first term in key order."""
+    if d.t:
+        k = sorted(d.t, key=_akey)[0]
+        return d if d.t[k] > 0 else -d
+    return d if d.c >= 0 else -d
+
+
+def eq0(l: Lin) -> B:
+    """The fact l == 0 in canonical sign."""
+    return B("eq", _eq_sign(l))
+
+
 def cmp_lin(op, a: Lin, b: Lin) -> B:
     d = a - b
     if op == "==":
-        r = B("eq", d)
+        r = B("eq", _eq_sign(d))
     elif op == "!=":
-        r = b_not(B("eq", d))
+        r = b_not(B("eq", _eq_sign(d)))
     elif op == "<=":
         r = B("le", d)
     elif op == "<":
@@ -1490,13 +1503,13 @@ class SymExec:
         if isinstance(v, Lin):
             if v.is_const():
                 return B("const", v.c != 0)
-            return b_not(B("eq", v))
+            return b_not(B("eq", _eq_sign(v)))
         if isinstance(v, Const):
             return B("const", bool(v.v))
         if isinstance(v, Tup) and not any(isinstance(x, Star) for x in v.items):
             return B("const", bool(v.items))
         if isinstance(v, GhostList):
-            return b_not(B("eq", v.count))
+            return b_not(B("eq", _eq_sign(v.count)))
         if isinstance(v, Sym):
             if v.exact:
                 return TRUE
